@@ -167,6 +167,28 @@ def run(ctx):
             ctx.violations.append({"suite": "LEN-PROPERTY", "case": case, "impl": impl, "what": what})
         ctx.suites["LEN-PROPERTY"] = {"checked": "monotone, Some iff <= MAX, range(code) == run of code, tiling, on all 2^32 lengths",
                                       "failures": len(viol)}
+    # ... also when the bytes arrive through the stream / buffer helpers in reads of several sizes (implementation alone)
+    sc = []
+    for v in suites.VNAMES:
+        for n, k in ((40000, 4096), (70000, 65536), (5000, 7), (300, 300), (1048576 + 700, 65536), (200000, 1048576)):
+            sc.append(("stream %s gen %d %d %d" % (v, 11 + n % 97, n, k), v, n))
+            sc.append(("hist %s ugen %d %d fd" % (v, 11 + n % 97, n), v, n))
+    so = core.run_cases(hb, [c for c, _, _ in sc], tag="c09s")
+    nbad = 0
+    for (c, v, n), o in zip(sc, so):
+        ctx.evaluations += 1
+        ctx.nontrivial.add(c)
+        if o.startswith("ok "):
+            code = pyref.unhex(o.split(" ")[1])[suites.VARIANTS[v][0]]
+            if code != pyref.spec_code(n):
+                nbad += 1
+                ctx.violations.append({"suite": "STREAM-LENGTH", "case": c, "impl": o[:120], "config": "default",
+                                       "what": "a hash generated from %d bytes carries length code %d, the code of %d bytes is %s" % (n, code, n, pyref.spec_code(n))})
+        else:
+            nbad += 1
+            ctx.violations.append({"suite": "STREAM-LENGTH", "case": c, "impl": o[:120], "config": "default",
+                                   "what": "%d pseudo-random bytes must give a hash" % n})
+    ctx.suites["STREAM-LENGTH"] = {"cases": len(sc), "failures": nbad}
     # a generated hash carries the code of the number of bytes fed -- also when they arrive as ONE slice longer than 4 GiB
     # (release build; ~4.3 GB of zero pages, about 25 s): there is no code for that length, so no hash
     hr = ctx.harness("release")
